@@ -764,5 +764,129 @@ theorem core_after_scan (st : Idx Sel) (id : String) (e : EpData) (oldE : Option
     rw [hM]
     exact ⟨(cmem s).1, fun h _ => (cmem s).2 h⟩
 
+/-- the invariant: bookkeeping + every match cache right -/
+structure Inv (st : Idx Sel) : Prop where
+  core : Core st
+  lab : Lab matchSel st
+
+theorem discardPanics_nodup {l : List String} (h : l.Nodup) (id : String) (st : Idx Sel) :
+    discardPanics id l st = false := by
+  unfold discardPanics
+  rw [List.any_eq_false]
+  intro p _
+  have := count_le_one_of_nodup h p
+  have h2 : decide (2 ≤ l.count p) = false := by simp; omega
+  simp [h2]
+
+theorem lab_transfer {st st' : Idx Sel} (h : Lab matchSel st) (hsub : ∀ p ∈ st'.eps, p ∈ st.eps)
+    (hcfg : ∀ s, cfgAt st' s = cfgAt st s) (hpar : st'.parents = st.parents) : Lab matchSel st' := by
+  intro p hp s
+  exact (OK_congr matchSel (hcfg s) hpar rfl rfl rfl rfl (fun _ => Iff.rfl)).2 (h p (hsub p hp) s)
+
+theorem mem_alSet {κ β : Type} [DecidableEq κ] {k : κ} {v : β} {l : List (κ × β)} {p : κ × β}
+    (h : p ∈ alSet k v l) : p = (k, v) ∨ p ∈ l := by
+  unfold alSet alErase at h
+  rcases List.mem_cons.1 h with h | h
+  · exact Or.inl h
+  · exact Or.inr (List.mem_filter.1 h).1
+
+theorem mem_alErase {κ β : Type} [DecidableEq κ] {k : κ} {l : List (κ × β)} {p : κ × β}
+    (h : p ∈ alErase k l) : p ∈ l := (List.mem_filter.1 h).1
+
+theorem alErase_idem {κ β : Type} [DecidableEq κ] (k : κ) (l : List (κ × β)) :
+    alErase k (alErase k l) = alErase k l := by
+  unfold alErase; rw [List.filter_filter]; simp
+
+theorem not_mem_keys_alErase {κ β : Type} [DecidableEq κ] (k : κ) (l : List (κ × β)) :
+    k ∉ (alErase k l).map (·.1) := by
+  intro h
+  obtain ⟨p, hp, hk⟩ := List.mem_map.1 h
+  have := (List.mem_filter.1 hp).2
+  simp at this
+  exact this hk
+
+/-- `UpdateEndpointOrSet` keeps the invariant. -/
+theorem updateEndpoint_inv {st : Idx Sel} (id : String) (labels : Labels) (nets : List Cidr) (ports : List Port)
+    (parents : List String) (h : Inv matchSel st) (hn : ∀ c ∈ nets, c.canon) (hpn : parents.Nodup) :
+    Inv matchSel (updateEndpoint matchSel id labels nets ports parents st) := by
+  have hc := h.core
+  unfold updateEndpoint
+  cases hget : alGet id st.eps with
+  | none =>
+    simp only
+    have hid : id ∉ st.eps.map (·.1) := by
+      intro hm
+      have := alGet_isSome_iff.2 hm
+      rw [hget] at this; cases this
+    have heps : (scanEp matchSel ⟨labels, nets, ports, parents, []⟩ [] st).1.eps = st.eps :=
+      (scanEp_frame matchSel _ _ st).eps
+    obtain ⟨c1, l1, q1, hcfg, hpar, hok⟩ := core_after_scan matchSel st id ⟨labels, nets, ports, parents, []⟩ none st.eps
+      hc.wf hc.nb hn hpn hc.epsNodup hid
+      (fun p hp => ⟨hc.cachedNodup p hp, hc.cachedPresent p hp, hc.parentsNodup p hp, hc.wf.nets p hp⟩)
+      (fun o ho => by cases ho)
+      (fun s m => by rw [hc.refc]; simp [oldTerm])
+      { (scanEp matchSel ⟨labels, nets, ports, parents, []⟩ [] st).1 with
+        eps := alSet id (scanEp matchSel ⟨labels, nets, ports, parents, []⟩ [] st).2
+          (scanEp matchSel ⟨labels, nets, ports, parents, []⟩ [] st).1.eps }
+      ⟨rfl, rfl, rfl, rfl, rfl, rfl, rfl⟩
+      (by
+        show (alSet id _ (scanEp matchSel ⟨labels, nets, ports, parents, []⟩ [] st).1.eps).Perm _
+        rw [heps]; unfold alSet; rw [alErase_absent hid]; exact List.Perm.refl _)
+    refine ⟨c1, ?_⟩
+    intro p hp s
+    have hp' : p ∈ alSet id (scanEp matchSel ⟨labels, nets, ports, parents, []⟩ [] st).2 st.eps := by
+      have hp2 : p ∈ alSet id (scanEp matchSel ⟨labels, nets, ports, parents, []⟩ [] st).2
+        (scanEp matchSel ⟨labels, nets, ports, parents, []⟩ [] st).1.eps := hp
+      rw [heps] at hp2; exact hp2
+    rcases mem_alSet hp' with rfl | hp'
+    · exact hok s
+    · exact (OK_congr matchSel (hcfg s) hpar rfl rfl rfl rfl (fun _ => Iff.rfl)).2 (h.lab p hp' s)
+  | some old =>
+    simp only
+    split
+    · exact h
+    · have hmem : (id, old) ∈ st.eps := alGet_some_mem hget
+      have hrp : recalcPanics old st = false := recalcPanics_false (hc.cachedPresent _ hmem)
+      have hdp : ∀ st2 : Idx Sel, discardPanics id (old.parents.filter (fun p => !(parents.contains p))) st2 = false :=
+        fun st2 => discardPanics_nodup ((hc.parentsNodup _ hmem).filter _) id st2
+      simp only [hrp, Bool.false_eq_true, if_false, hdp]
+      have hw1 : WF ({ st with eps := alErase id st.eps } : Idx Sel) :=
+        wf_of_sameButEps hc.wf ⟨rfl, rfl, rfl, rfl, rfl, rfl, rfl⟩ (fun p hp => hc.wf.nets p (mem_alErase hp))
+      have heps : (scanEp matchSel ⟨labels, nets, ports, parents, []⟩ (recalc old st)
+          ({ st with eps := alErase id st.eps } : Idx Sel)).1.eps = alErase id st.eps :=
+        (scanEp_frame matchSel _ _ _).eps
+      obtain ⟨c1, l1, q1, hcfg, hpar, hok⟩ := core_after_scan matchSel ({ st with eps := alErase id st.eps } : Idx Sel)
+        id ⟨labels, nets, ports, parents, []⟩ (some old) (alErase id st.eps)
+        hw1 hc.nb hn hpn (keys_alErase_nodup hc.epsNodup) (not_mem_keys_alErase id st.eps)
+        (fun p hp => ⟨hc.cachedNodup p (mem_alErase hp), hc.cachedPresent p (mem_alErase hp),
+          hc.parentsNodup p (mem_alErase hp), hc.wf.nets p (mem_alErase hp)⟩)
+        (fun o ho => by cases ho; exact hc.cachedNodup _ hmem)
+        (fun s m => by
+          have := hc.refc s m
+          rw [sumBy_split _ id hc.epsNodup, hget] at this
+          exact this)
+        { (scanEp matchSel ⟨labels, nets, ports, parents, []⟩ (recalc old st)
+            ({ st with eps := alErase id st.eps } : Idx Sel)).1 with
+          eps := alSet id (scanEp matchSel ⟨labels, nets, ports, parents, []⟩ (recalc old st)
+            ({ st with eps := alErase id st.eps } : Idx Sel)).2
+            (scanEp matchSel ⟨labels, nets, ports, parents, []⟩ (recalc old st)
+            ({ st with eps := alErase id st.eps } : Idx Sel)).1.eps }
+        ⟨rfl, rfl, rfl, rfl, rfl, rfl, rfl⟩
+        (by
+          show (alSet id _ (scanEp matchSel ⟨labels, nets, ports, parents, []⟩ (recalc old st)
+            ({ st with eps := alErase id st.eps } : Idx Sel)).1.eps).Perm _
+          rw [heps]; unfold alSet; rw [alErase_idem]; exact List.Perm.refl _)
+      refine ⟨c1, ?_⟩
+      intro p hp s
+      have hp' : p ∈ alSet id (scanEp matchSel ⟨labels, nets, ports, parents, []⟩ (recalc old st)
+          ({ st with eps := alErase id st.eps } : Idx Sel)).2 (alErase id st.eps) := by
+        have hp2 : p ∈ alSet id (scanEp matchSel ⟨labels, nets, ports, parents, []⟩ (recalc old st)
+          ({ st with eps := alErase id st.eps } : Idx Sel)).2 (scanEp matchSel ⟨labels, nets, ports, parents, []⟩ (recalc old st)
+          ({ st with eps := alErase id st.eps } : Idx Sel)).1.eps := hp
+        rw [heps] at hp2; exact hp2
+      rcases mem_alSet hp' with rfl | hp'
+      · exact hok s
+      · exact (OK_congr matchSel (hcfg s) hpar rfl rfl rfl rfl (fun _ => Iff.rfl)).2 (h.lab p (mem_alErase hp') s)
+
 end CoreInv
 end CalicoVerif.C04
